@@ -342,59 +342,7 @@ func init() {
 	reg("internal/runtime/atomic.Load", atomicLoad)
 
 	// ---- the generated ANTLR parser is replaced by its validated model ---
-	reg("github.com/nyaruka/goflow/excellent.Parse", func(fr *frame, args []value) value {
-		i := fr.i
-		p := i.prog.ImportedPackage("github.com/nyaruka/goflow/excellent")
-		model := p.Func("VerifParse")
-		if model == nil {
-			panic(unsupported{"excellent.Parse: the generated ANTLR parser is not encoded and the parser model overlay is not loaded"})
-		}
-		res := i.callFn(fr, model, args[0], args[1]).(tuple)
-		if e, ok := res[1].(iface); ok && e.t != nil {
-			if g := p.Var("errVerifNonASCII"); g != nil {
-				if ge, ok := (*i.globals[g]).(iface); ok && ge.t != nil && e.v == ge.v {
-					panic(unsupported{"excellent.Parse: non-ASCII expression is outside the parser model"})
-				}
-			}
-		}
-		return res
-	})
-
-	reg("github.com/nyaruka/goflow/flows/definition/legacy/expressions.migrateExpression", func(fr *frame, args []value) value {
-		i := fr.i
-		p := i.prog.ImportedPackage("github.com/nyaruka/goflow/flows/definition/legacy/expressions")
-		model := p.Func("verifMigrateExpression")
-		if model == nil {
-			panic(unsupported{"legacy migrateExpression: the generated ANTLR parser is not encoded and the parser model overlay is not loaded"})
-		}
-		res := i.callFn(fr, model, args[0], args[1], args[2]).(tuple)
-		if e, ok := res[1].(iface); ok && e.t != nil {
-			if g := p.Var("errVerifNonASCII"); g != nil {
-				if ge, ok := (*i.globals[g]).(iface); ok && ge.t != nil && e.v == ge.v {
-					panic(unsupported{"legacy migrateExpression: non-ASCII expression is outside the parser model"})
-				}
-			}
-		}
-		return res
-	})
-
-	reg("github.com/nyaruka/goflow/contactql.ParseQuery", func(fr *frame, args []value) value {
-		i := fr.i
-		p := i.prog.ImportedPackage("github.com/nyaruka/goflow/contactql")
-		model := p.Func("verifParseQuery")
-		if model == nil {
-			panic(unsupported{"contactql.ParseQuery: the generated ANTLR parser is not encoded and the parser model overlay is not loaded"})
-		}
-		res := i.callFn(fr, model, args[0], args[1], args[2]).(tuple)
-		if e, ok := res[1].(iface); ok && e.t != nil {
-			if g := p.Var("errVerifNonASCII"); g != nil {
-				if ge, ok := (*i.globals[g]).(iface); ok && ge.t != nil && e.v == ge.v {
-					panic(unsupported{"contactql.ParseQuery: non-ASCII query is outside the parser model"})
-				}
-			}
-		}
-		return res
-	})
+	registerParserModels(reg)
 
 	// jsonparser reinterprets *[]byte as *string through unsafe.Pointer
 	reg("github.com/buger/jsonparser.equalStr", func(fr *frame, args []value) value {
